@@ -101,7 +101,7 @@ impl Read for LyingReader {
 }
 // allowed: a clean panic (slice bounds / debug assertion); forbidden: anything else,
 // in particular reaching unreachable_unchecked() under feature `unsafe`
-// @ob id=stream.lying_reader props=C17 rows=plain,unsafe quick=plain,unsafe kind=HC fn=generate_easy_std::hash_stream_common domain="reader returning any usize as its byte count" cbmc="--arrays-uf-always" allow="range end index|assertion failed: len <= buffer.len\(\)|slice index" timeout=1500
+// @ob id=stream.lying_reader props=C17 rows=plain,unsafe quick=plain,unsafe kind=HC fn=generate_easy_std::hash_stream_common domain="reader returning any usize as its byte count" cbmc="--arrays-uf-always" allow="range end index|assertion failed: len <= buffer.len\(\)|slice index|slice_index_fail|slice::index" timeout=1500
 #[kani::proof]
 #[kani::unwind(4)]
 fn ob_lying_reader() {
